@@ -194,8 +194,11 @@ def run_cases(chk, cases, name="c01", full=False, edition15=False):
 def edition_2015(chk, cases):
     """the same definitions inside an edition-2015 crate: paths the macro writes itself must not be resolved by the
     edition of the USER's tokens (a leading `::` means the crate root there)"""
-    pick = [c for c in cases if "macro_rules!" not in c[2] and "dyn " not in c[2] and "async" not in c[2]][:400]
-    hdr = ("// generated by /verif (C01, edition 2015)\n#![allow(dead_code)]\nextern crate core;\n"
+    # no `extern crate core` at the root (a 2015 crate does not need one): definitions that spell `::core::..` themselves
+    # are left out, every `::core::` that remains is the macro's own
+    pick = [c for c in cases if "macro_rules!" not in c[2] and "dyn " not in c[2] and "async" not in c[2] and "::core::" not in c[2]
+            and "::core::" not in "".join(c[1].extra_items)][:400]
+    hdr = ("// generated by /verif (C01, edition 2015)\n#![allow(dead_code)]\n"
            "extern crate educe;\nextern crate verif_rt;\n")
     shards = H.shard(pick, max(1, min(NCPU, len(pick) // 40)))
     progs = {}
